@@ -165,7 +165,7 @@ func VerifH06() {
 	P := 1
 	nA, nB := 2, 1
 	if nd.Tier() == 1 {
-		P = 2 // full alphabets for both threads (see below), two preemptions
+		P = 2 // two preemptions (the alphabets stay those of the quick tier: schedule depth matters more)
 	}
 	nd.Bound("H06.preemption_bound", P)
 	nd.Bound("H06.ops_thread_A", nA)
@@ -248,8 +248,8 @@ func VerifH06() {
 	committed := false
 	for i := 0; i < nA; i++ {
 		var o *lop
-		if nd.Tier() == 0 && i == nA-1 {
-			// quick: the last operation of A is a read of key a (through the transaction if it is still open)
+		if i == nA-1 {
+			// the last operation of A is a read of key a (through the transaction if it is still open)
 			o = &lop{kind: 2, key: "a"}
 			if haveTx && !committed {
 				o.kind = 6
@@ -263,8 +263,8 @@ func VerifH06() {
 		opsA = append(opsA, o)
 	}
 	for i := 0; i < nB; i++ {
-		if nd.Tier() == 0 {
-			// quick: B writes (set a, set b, delete a)
+		if true {
+			// B writes (set a, set b, delete a)
 			o := &lop{kind: 0, key: "a"}
 			switch nd.Choice("B-op", 3) {
 			case 0:
@@ -286,7 +286,7 @@ func VerifH06() {
 		gcOp = &lop{kind: 7, key: "a"}
 		ops = append(ops, gcOp)
 	}
-	nd.SpawnRunsFirst(true)
+	nd.SpawnRunsFirst(P == 1) // with two preemptions both shapes are within the bound anyway
 	nd.SetPreemptionBound(P)
 	go func() {
 		for _, o := range opsB {
